@@ -427,7 +427,16 @@ pub fn run_c10(ctx: &mut Ctx) -> Verdict {
     r
 }
 
+/// The same histories without the allocator seam (for Miri, which has its own).
+pub fn run_c10_plain(ctx: &mut Ctx) -> Verdict {
+    run_c10_body(ctx)
+}
+
 fn run_c10_inner(ctx: &mut Ctx, _alloc: &AllocRun) -> Verdict {
+    run_c10_body(ctx)
+}
+
+fn run_c10_body(ctx: &mut Ctx) -> Verdict {
     let (a, p, pool_terms) = crate::make_pool(ctx);
     let n_ops = ctx.tape.range(2, 40);
     // the pool: (store, its own model, a tag for messages)
